@@ -7,7 +7,8 @@
 
 use super::TransportManagerHandle;
 use crate::{
-    error::{AddressError, DialError},
+    addresses::InsertionError,
+    error::{AddressError, DialError, ImmediateDialError},
     transport::{
         common::listener::{AddressType, DnsType, GetSocketAddr, TcpAddress},
         manager::{
@@ -20,6 +21,7 @@ use crate::{
         Endpoint, Transport, TransportEvent,
     },
     types::ConnectionId,
+    transport::common::listener::verif_c10_listener::ListenerBox,
     verif::{kv, peer, peer_index, VerifBox},
     Error, PeerId,
 };
@@ -85,6 +87,8 @@ impl Transport for Scripted {
 }
 
 pub struct AddrBox {
+    /// Listener part (`bind`, `localdial`, `accept`, `dns`, `resolve`), created on first use.
+    listener: Option<ListenerBox>,
     manager: Option<TransportManager>,
     handle: Option<TransportManagerHandle>,
     opened: OpenLog,
@@ -95,6 +99,7 @@ pub struct AddrBox {
 impl AddrBox {
     pub fn new() -> Self {
         Self {
+            listener: None,
             manager: None,
             handle: None,
             opened: Default::default(),
@@ -123,6 +128,9 @@ impl AddrBox {
 
     /// Parse the textual form used in the ops (`/p2p/P<n>` placeholders).
     fn addr(&self, text: &str) -> Option<Multiaddr> {
+        if !text.starts_with('/') || text.len() < 2 {
+            return None;
+        }
         let mut out = String::new();
         let mut prev_p2p = false;
         for seg in text.split('/').skip(1) {
@@ -181,6 +189,31 @@ impl AddrBox {
         }
     }
 
+    /// As [`Self::addr`]; `-` is the empty address.
+    fn addr_or_empty(&self, text: &str) -> Option<Multiaddr> {
+        if text == "-" {
+            Some(Multiaddr::empty())
+        } else {
+            self.addr(text)
+        }
+    }
+
+    /// Canonical content of the public address set.
+    fn public(&self) -> String {
+        let public = self.handle.as_ref().expect("cfg").public_addresses();
+        let mut items: Vec<String> = public.get_addresses().iter().map(|a| self.show(a)).collect();
+        items.sort();
+        format!("[{}]", items.join(","))
+    }
+
+    /// Let the manager's event loop process what the handle queued.
+    fn pump(&mut self) {
+        let manager = self.manager.as_mut().expect("cfg");
+        for _ in 0..2 {
+            let _ = manager.next().now_or_never();
+        }
+    }
+
     fn conn(token: &str) -> Option<ConnectionId> {
         Some(ConnectionId::from(token.strip_prefix('c')?.parse::<usize>().ok()?))
     }
@@ -205,6 +238,9 @@ fn dial_error(token: &str) -> Option<DialError> {
 impl VerifBox for AddrBox {
     fn step(&mut self, line: &str) -> String {
         let t: Vec<&str> = line.split_whitespace().collect();
+        if t.first().map_or(false, |op| ListenerBox::handles(op)) {
+            return self.listener.get_or_insert_with(ListenerBox::new).step(&t);
+        }
         if let ["cfg", rest @ ..] = t.as_slice() {
             let args = kv(rest);
             let (Some(tcp), Some(maxout), Some(cap)) = (args.get("tcp"), args.get("maxout"), args.get("cap")) else {
@@ -446,6 +482,132 @@ impl VerifBox for AddrBox {
                 let manager = self.manager.as_mut().expect("cfg");
                 manager.connection_limits.accept_established_connection(id, false);
                 "ok".into()
+            }
+            ["hdial", p] => {
+                // the handle's guards, then (if a command was queued) the manager processing it
+                let Some(p) = self.peer_of(p) else { return "bad-op".into() };
+                let before = self.opened.lock().expect("lock").len();
+                let next = self
+                    .manager
+                    .as_ref()
+                    .expect("cfg")
+                    .next_connection_id
+                    .load(std::sync::atomic::Ordering::Relaxed);
+                let head = match self.handle.as_ref().expect("cfg").dial(&p) {
+                    Ok(()) => "ok",
+                    Err(ImmediateDialError::TriedToDialSelf) => "err self",
+                    Err(ImmediateDialError::NoAddressAvailable) => "err no-address",
+                    Err(ImmediateDialError::AlreadyConnected) => "err connected",
+                    Err(ImmediateDialError::ChannelClogged) => "err clogged",
+                    Err(ImmediateDialError::TaskClosed) => "err closed",
+                    Err(_) => "err other",
+                };
+                self.pump();
+                let after = self
+                    .manager
+                    .as_ref()
+                    .expect("cfg")
+                    .next_connection_id
+                    .load(std::sync::atomic::Ordering::Relaxed);
+                let did = if after == next {
+                    "idle".to_string()
+                } else {
+                    let log = self.opened.lock().expect("lock");
+                    match log.get(before) {
+                        Some((conn, addresses)) if *conn == ConnectionId::from(next) =>
+                            format!("open c{} {}", next, self.show_list(addresses)),
+                        Some(_) => "open c?".to_string(),
+                        None => format!("noopen c{next}"),
+                    }
+                };
+                format!("{head} {did} | {}", self.store(&p))
+            }
+            ["hdialaddr", a] => {
+                let Some(a) = self.addr(a) else { return "bad-op".into() };
+                // guard only: the queued command is taken out again (`TransportManager::dial_address` is C05's)
+                let result = self.handle.as_ref().expect("cfg").dial_address(a);
+                let manager = self.manager.as_mut().expect("cfg");
+                let queued = manager.cmd_rx.try_recv().is_ok();
+                match result {
+                    Ok(()) => format!("ok queued={}", queued as u8),
+                    Err(ImmediateDialError::PeerIdMissing) => format!("err peer-id-missing queued={}", queued as u8),
+                    Err(ImmediateDialError::ChannelClogged) => "err clogged".into(),
+                    Err(ImmediateDialError::TaskClosed) => "err closed".into(),
+                    Err(_) => "err other".into(),
+                }
+            }
+            ["pubadd", a] => {
+                let Some(a) = self.addr_or_empty(a) else { return "bad-op".into() };
+                let public = self.handle.as_ref().expect("cfg").public_addresses();
+                let head = match public.add_address(a) {
+                    Ok(true) => "ok new",
+                    Ok(false) => "ok known",
+                    Err(InsertionError::EmptyAddress) => "err empty",
+                    Err(InsertionError::DifferentPeerId) => "err different-peer",
+                };
+                format!("{head} | {}", self.public())
+            }
+            ["pubrm", a] => {
+                let Some(a) = self.addr_or_empty(a) else { return "bad-op".into() };
+                let public = self.handle.as_ref().expect("cfg").public_addresses();
+                let removed = public.remove_address(&a);
+                format!("{removed} | {}", self.public())
+            }
+            ["listening"] => {
+                // what the handle reports as the node's listen addresses
+                let set = self.handle.as_ref().expect("cfg").listen_addresses();
+                let mut items: Vec<String> = set.iter().map(|a| self.show(a)).collect();
+                items.sort();
+                format!("[{}]", items.join(","))
+            }
+            ["bulk", kind, items @ ..] => {
+                // the three bulk constructors of `AddressStore` (FromIterator<Multiaddr>,
+                // FromIterator<AddressRecord>, Extend<&AddressRecord>) on a fresh default store
+                let mut addresses = Vec::new();
+                for item in items {
+                    let (a, score) = match item.rsplit_once('=') {
+                        Some((a, s)) => (a, score_of(s)),
+                        None => (*item, Some(0)),
+                    };
+                    let (Some(a), Some(score)) = (self.addr(a), score) else { return "bad-op".into() };
+                    addresses.push((a, score));
+                }
+                let store: AddressStore = match *kind {
+                    "multiaddr" => addresses.iter().map(|(a, _)| a.clone()).collect(),
+                    "record" => addresses
+                        .iter()
+                        .map(|(a, s)| AddressRecord::from_raw_multiaddr_with_score(a.clone(), *s))
+                        .collect(),
+                    "raw" => addresses.iter().map(|(a, _)| AddressRecord::from_raw_multiaddr(a.clone())).collect(),
+                    "ref" => {
+                        let records: Vec<AddressRecord> = addresses
+                            .iter()
+                            .map(|(a, s)| AddressRecord::from_raw_multiaddr_with_score(a.clone(), *s))
+                            .collect();
+                        let mut store = AddressStore::new();
+                        store.extend(records.iter());
+                        store
+                    }
+                    _ => return "bad-op".into(),
+                };
+                let mut items: Vec<String> = store
+                    .addresses
+                    .iter()
+                    .map(|(key, record)| {
+                        let key_ok = if key == record.address() { "" } else { "!key" };
+                        format!("{}={}{}", self.show(record.address()), record.verif_score(), key_ok)
+                    })
+                    .collect();
+                items.sort();
+                // ordering of records (`PartialEq`/`PartialOrd`/`Ord` compare scores only)
+                let records: Vec<&AddressRecord> = store.addresses.values().collect();
+                let consistent = records.iter().all(|x| {
+                    records.iter().all(|y| {
+                        (x == y) == (x.verif_score() == y.verif_score())
+                            && x.partial_cmp(y) == Some(x.verif_score().cmp(&y.verif_score()))
+                    })
+                });
+                format!("[{}] ord={}", items.join(","), consistent as u8)
             }
             _ => "bad-op".into(),
         }
